@@ -312,6 +312,14 @@ pub fn attacks(
                 let cut: String = v.chars().take(v.chars().count() - 1).collect();
                 out.push(cut);
             }
+            // the honest value followed by exactly 256 / 65536 more characters, or with that many
+            // cut off its end: a length difference that vanishes in 8 or 16 bits
+            out.push(format!("{}{}", v, "x".repeat(256)));
+            out.push(format!("{}{}", v, "y".repeat(65536)));
+            let n = v.chars().count();
+            if n > 256 {
+                out.push(v.chars().take(n - 256).collect());
+            }
             out.push(String::new());
             out.retain(|x| x != v);
             out
